@@ -128,6 +128,7 @@ func vAssumeChunkCRCsNonZero(w *Writer, file []byte, includeCRC bool) {
 // params: tpl, cfg, cs, validate, lo, hi (partition cell of the cut position L: lo <= L < hi),
 // rd (0: lexer, 1: non-indexed iterator - separate jobs, so their path counts add instead of multiplying)
 func VC09Cut() {
+	vIdealCRC() // two CRC values are equal exactly when the bytes fed are equal (no accidental collisions)
 	tpl, cfg, cs, validate := vParam("tpl"), vParam("cfg"), vParam("cs"), vParam("validate")
 	lo, hi, rd := vParam("lo"), vParam("hi"), vParam("rd")
 	wl := vMakeWorkload(tpl, 1, 2, 0)
